@@ -48,6 +48,25 @@ def fields_hash(s):
     return hash((s._color, s._bgcolor, s._attributes, s._set_attributes, s._link))
 
 
+def wf(s):
+    """The well-formedness hypothesis of the round-trip theorem (Style.wf in Model/Style.lean), evaluated
+    on a real Style: 13 attribute bits with values only where set, colours whose name is a white-space-free
+    definition of that very colour, link None or one non-empty word."""
+    from rich.color import Color
+
+    def okc(c):
+        if c is None:
+            return True
+        try:
+            return not any(ch.isspace() for ch in c.name) and Color.parse(c.name) == c
+        except Exception:  # noqa: BLE001
+            return False
+
+    lk = s.link
+    bits = s._attributes & s._set_attributes == s._attributes and 0 <= s._set_attributes < 8192
+    return bits and okc(s.color) and okc(s.bgcolor) and (lk is None or (lk != "" and not any(ch.isspace() for ch in lk)))
+
+
 def enc_state(s):
     """Full modelled state of a real Style; reads the cache *before* str() fills it."""
     cached = s._style_definition
@@ -58,6 +77,7 @@ def enc_state(s):
         + "|s" + enc_str(str(s))
         + "|a" + "".join(enc_tri(getattr(s, a)) for a in ATTRS)
         + "|h" + ("1" if hash(s) == fields_hash(s) else "0")
+        + "|w" + ("1" if wf(s) else "0")
     )
 
 
